@@ -104,20 +104,71 @@ func c11RegistryEnums(c *core.Ctx) {
 			return true
 		})
 		published := map[string]bool{}
-		einfo := ext.Pkg.TypesInfo
-		ast.Inspect(ext.Decl.Body, func(n ast.Node) bool {
-			kv, ok := n.(*ast.KeyValueExpr)
-			if !ok {
-				return true
+		// the Const members may be written in helpers the extender calls (a constructor of one
+		// option, a function returning the list): a helper's parameters stand for what the call
+		// site computes them from
+		var collect func(fd *core.FuncDecl, bound map[*types.Var]map[string]bool, depth int)
+		collect = func(fd *core.FuncDecl, bound map[*types.Var]map[string]bool, depth int) {
+			if depth > 3 || fd == nil || fd.Decl.Body == nil {
+				return
 			}
-			if id, ok := kv.Key.(*ast.Ident); ok && id.Name == "Const" {
-				for k := range fieldsOf(ext, kv.Value, 0) {
-					published[k] = true
+			info := fd.Pkg.TypesInfo
+			from := func(e ast.Expr) map[string]bool {
+				out := fieldsOf(fd, e, 0)
+				ast.Inspect(e, func(n ast.Node) bool {
+					if id, ok := n.(*ast.Ident); ok {
+						if v, ok := info.Uses[id].(*types.Var); ok {
+							for k := range bound[v] {
+								out[k] = true
+							}
+						}
+					}
+					return true
+				})
+				return out
+			}
+			ast.Inspect(fd.Decl.Body, func(n ast.Node) bool {
+				switch x := n.(type) {
+				case *ast.KeyValueExpr:
+					if id, ok := x.Key.(*ast.Ident); ok && id.Name == "Const" {
+						for k := range from(x.Value) {
+							published[k] = true
+						}
+					}
+				case *ast.AssignStmt:
+					// s.Const = code
+					for i, l := range x.Lhs {
+						if f := core.FieldOf(info, l); f != nil && f.Name() == "Const" && i < len(x.Rhs) {
+							for k := range from(x.Rhs[i]) {
+								published[k] = true
+							}
+						}
+					}
+				case *ast.CallExpr:
+					fn := core.Callee(info, x)
+					if fn == nil || fn.Pkg() != fd.Obj.Pkg() || fn == fd.Obj {
+						return true
+					}
+					cfd := p.DeclOf(fn)
+					if cfd == nil {
+						return true
+					}
+					sig := fn.Type().(*types.Signature)
+					nb := map[*types.Var]map[string]bool{}
+					for i := 0; i < sig.Params().Len() && i < len(x.Args); i++ {
+						nb[sig.Params().At(i)] = from(x.Args[i])
+					}
+					if rv := sig.Recv(); rv != nil {
+						if re := core.RecvExpr(x); re != nil {
+							nb[rv] = from(re)
+						}
+					}
+					collect(cfd, nb, depth+1)
 				}
-			}
-			return true
-		})
-		_ = einfo
+				return true
+			})
+		}
+		collect(ext, nil, 0)
 		var only []string
 		for k := range accepted {
 			if !published[k] {
@@ -233,51 +284,81 @@ func c11RegimeType(c *core.Ctx) {
 			c.Ob("C11-R5", key, fd.Decl.Pos(), false, "no Calculate method")
 			continue
 		}
-		cinfo := cfd.Pkg.TypesInfo
-		recv := recvVar(cfd)
-		ff := core.NewFuncFlow(cfd)
-		ld := core.NewLocalDefs(cinfo, cfd.Decl.Body)
-		ok := false
-		for _, call := range core.CallsTo(cinfo, cfd.Decl.Body, func(f *types.Func) bool { return core.IsFunc(f, core.ModPath+"/tax", "Regime", "SetRegime") }) {
-			if len(call.Args) != 1 || core.RootVar(cinfo, core.RecvExpr(call)) != recv {
-				continue
+		var canonicalises func(cfd *core.FuncDecl, recv *types.Var, depth int) bool
+		canonicalises = func(cfd *core.FuncDecl, recv *types.Var, depth int) bool {
+			if depth > 2 || cfd == nil || cfd.Decl.Body == nil || recv == nil {
+				return false
 			}
-			// argument: <def>.Country with def := <recv>.RegimeDef()
-			se, isSel := ast.Unparen(call.Args[0]).(*ast.SelectorExpr)
-			if !isSel || se.Sel.Name != "Country" {
-				continue
-			}
-			dv := core.VarOf(cinfo, se.X)
-			var defExpr ast.Expr = se.X
-			if dv != nil {
-				if ds := ld.All(dv); len(ds) == 1 && ds[0].RHS != nil {
-					defExpr = ds[0].RHS
+			cinfo := cfd.Pkg.TypesInfo
+			ff := core.NewFuncFlow(cfd)
+			ld := core.NewLocalDefs(cinfo, cfd.Decl.Body)
+			// conditions allowed around the canonicalising call: the regime is set, its definition exists
+			onlyAllowed := func(call ast.Node, dv *types.Var) bool {
+				node := ff.Flow.EnclosingNode(call)
+				if node == nil {
+					return true
 				}
-			}
-			dc, isCall := ast.Unparen(defExpr).(*ast.CallExpr)
-			if !isCall {
-				continue
-			}
-			if fn := core.Callee(cinfo, dc); fn == nil || fn.Name() != "RegimeDef" || core.RootVar(cinfo, core.RecvExpr(dc)) != recv {
-				continue
-			}
-			// conditions: only `IsEmpty()` false on the receiver's regime and `def != nil`
-			only := true
-			if node := ff.Flow.EnclosingNode(call); node != nil {
 				for l, v := range ff.Flow.CondsAt(node) {
 					g := core.GuardOf(cinfo, l, ff.Errs)
 					switch {
-					case g.Kind == "nil" && dv != nil && core.VarOf(cinfo, g.X) == dv && g.Neg == v:
+					case (g.Kind == "nil" || g.Kind == "err") && dv != nil && g.X != nil && core.VarOf(cinfo, g.X) == dv && g.Neg == v:
 					case g.Kind == "bool" && g.Call != nil && core.Callee(cinfo, g.Call) != nil && core.Callee(cinfo, g.Call).Name() == "IsEmpty" && !v:
 					default:
-						only = false
+						return false
+					}
+				}
+				return true
+			}
+			for _, call := range core.CallsTo(cinfo, cfd.Decl.Body, func(f *types.Func) bool { return core.IsFunc(f, core.ModPath+"/tax", "Regime", "SetRegime") }) {
+				if len(call.Args) != 1 || core.RootVar(cinfo, core.RecvExpr(call)) != recv {
+					continue
+				}
+				// argument: <def>.Country with def := <recv>.RegimeDef()
+				se, isSel := ast.Unparen(call.Args[0]).(*ast.SelectorExpr)
+				if !isSel || se.Sel.Name != "Country" {
+					continue
+				}
+				dv := core.VarOf(cinfo, se.X)
+				var defExpr ast.Expr = se.X
+				if dv != nil {
+					if ds := ld.All(dv); len(ds) == 1 && ds[0].RHS != nil {
+						defExpr = ds[0].RHS
+					}
+				}
+				dc, isCall := ast.Unparen(defExpr).(*ast.CallExpr)
+				if !isCall {
+					continue
+				}
+				if fn := core.Callee(cinfo, dc); fn == nil || fn.Name() != "RegimeDef" || core.RootVar(cinfo, core.RecvExpr(dc)) != recv {
+					continue
+				}
+				if onlyAllowed(call, dv) {
+					return true
+				}
+			}
+			// handed to a helper of the package: prepareRegime(&doc.Regime, …)
+			for _, call := range core.CallsTo(cinfo, cfd.Decl.Body, func(f *types.Func) bool { return f.Pkg() == cfd.Obj.Pkg() && f != cfd.Obj }) {
+				fn := core.Callee(cinfo, call)
+				hfd := p.DeclOf(fn)
+				if hfd == nil || !onlyAllowed(call, nil) {
+					continue
+				}
+				sig := fn.Type().(*types.Signature)
+				for i, a := range call.Args {
+					if i >= sig.Params().Len() || core.RootVar(cinfo, a) != recv {
+						continue
+					}
+					if n, _ := core.StructOf(sig.Params().At(i).Type()); n == nil {
+						continue
+					}
+					if canonicalises(hfd, sig.Params().At(i), depth+1) {
+						return true
 					}
 				}
 			}
-			if only {
-				ok = true
-			}
+			return false
 		}
+		ok := canonicalises(cfd, recvVar(cfd), 0)
 		c.Ob("C11-R5", key, cfd.Decl.Pos(), ok,
 			fmt.Sprintf("alternative regime codes %v are accepted for $regime although they are not tax country codes (the member's declared type), and %s.Calculate does not replace them by the regime's own code: a valid document keeps a $regime the published schema rejects", outside, core.TypeName(recvT)))
 	}
